@@ -2,6 +2,7 @@ package main
 
 import (
 	"fmt"
+	"go/types"
 
 	"golang.org/x/tools/go/ssa"
 )
@@ -91,7 +92,9 @@ func (ex *Exec) intrinsic(g *G, fr *Frame, fn *ssa.Function, args []Value, resul
 		}
 		if !c.IsTrue() {
 			ex.assume(c)
-			if ex.sol.Check(false) == Unsat {
+			// while replaying a decision prefix the parent path has already
+			// shown this assumption satisfiable under the same path condition
+			if !ex.replaying() && ex.sol.Check(false) == Unsat {
 				ex.end(OutInfeasible, "assumption unsatisfiable")
 			}
 		}
@@ -106,7 +109,7 @@ func (ex *Exec) intrinsic(g *G, fr *Frame, fn *ssa.Function, args []Value, resul
 	case "verifReach":
 		noArm()
 		tag := ex.tagOf(args, 0)
-		if !ex.res.Reach[tag] {
+		if !ex.res.Reach[tag] && !(ex.cfg.Witnessed != nil && ex.cfg.Witnessed(tag)) {
 			if ex.sol.Check(false) == Sat {
 				ex.res.Reach[tag] = true
 			}
@@ -141,6 +144,17 @@ func (ex *Exec) intrinsic(g *G, fr *Frame, fn *ssa.Function, args []Value, resul
 		} else {
 			set(ts.BV(0, 8))
 		}
+	case "verifByteAt":
+		// unchecked byte read (0 beyond the slice natively; harness-side helper)
+		sl := args[0].(*SliceV)
+		off := args[1].(*Term)
+		set(ts.Select(sl.Cell.RawArr, ex.off32(ts.Add(sl.Off, off))))
+	case "verifLoad32":
+		// little-endian 32-bit load from a byte slice at a (possibly symbolic) offset
+		sl := args[0].(*SliceV)
+		off := args[1].(*Term)
+		ex.require(ts.And(ts.Ule(off, ts.Add(off, ts.BV(4, 64))), ts.Ule(ts.Add(off, ts.BV(4, 64)), sl.Len)), "verifLoad32 out of range")
+		set(ex.rawLoad(&PtrV{Cell: sl.Cell, Off: ts.Add(sl.Off, off)}, types.Typ[types.Uint32]))
 	case "verifBufString":
 		// string made of n bytes of b starting at off (cap: StrCap or constant n)
 		sl := args[0].(*SliceV)
@@ -225,6 +239,11 @@ func (ex *Exec) guardTree(c *Cell, mu *Cell) {
 func (ex *Exec) assertHolds(c *Term, msg string) {
 	if c.IsTrue() {
 		ex.res.ObligTriv++
+		return
+	}
+	if ex.replaying() {
+		// discharged by the parent path under the same path condition
+		ex.assume(c)
 		return
 	}
 	r := ex.sol.Check(false, ex.ts.Not(c))
